@@ -304,6 +304,8 @@ def run(ctx):
     progs.append(("det:switch-matrix", msrc, {}))
     # every composite-literal form over structs whose field names differ only in the case of the first letter
     progs.append(("det:struct-literals", g9prog.struct_literal_program(), {}))
+    # const groups with iota, bare `_` lines, typed/untyped, used as array lengths / shifts / case labels / literal indices
+    progs.append(("det:const-iota", g9prog.const_iota_program(), {}))
     # every statement-kind template once, whatever the seed
     ksrc, kfeat = g9prog.statement_kinds_program(vlib.SplitMix(0xC01))
     progs.append(("det:statement-kinds", ksrc, kfeat))
@@ -421,13 +423,14 @@ def run(ctx):
                    "differential: %d programs (every generated source is first checked with go/types and discarded if it is not valid Go; %d deterministic: the "
                    "witness of the known finding, two hand-written ones, the struct-literal matrix (keyed / unkeyed / elided / pointer / slice / array / map "
                    "key and value / nested / anonymous / package-level literals over structs whose field names differ only in the case of the first letter, "
-                   "both declaration orders, embedded structs with promoted fields, all fields printed), the exhaustive switch matrix "
+                   "both declaration orders, embedded structs with promoted fields, all fields printed), the const/iota program (bare `_` lines, skipped and "
+                   "multi-name lines, typed/untyped, used as array lengths, shifts, case labels, literal indices), the exhaustive switch matrix "
                    "(110 switch functions: 1-3 cases x default first/middle/last/absent x every fallthrough subset x tagged/tagless, each run on "
                    "every selecting value) and one program with every statement-kind template; + %d seeded typed programs, %d-%d "
                    "source lines; statement kinds: see statement_kind_histogram) each built as Go and as XGo and run; non-trivial = distinct program with >= 3 output lines and identical "
                    "behaviour. The generator does not emit functions that refer to package-level variables declared later (known finding "
                    "var-init-order), nor the constructs listed in the CLAIM note."
-                   % (len(pairs), reordered, len(progs), len(DET_PROGRAMS) + 3, nprog,
+                   % (len(pairs), reordered, len(progs), len(DET_PROGRAMS) + 4, nprog,
                       min(len(p[1].splitlines()) for p in progs), max(len(p[1].splitlines()) for p in progs)),
               explanation="kernel theorem on MiniGo normalisations + K-diff of declaration order / field splitting + build-and-run differential",
               outcome_histogram=outcome, feature_histogram=feats, programs=len(progs),
